@@ -91,6 +91,12 @@ func registerIntrinsics(p *Program) {
 		return sym.Or(alts...), true
 	})
 	h("vGetwd", func(e *Exec, _ *frame, _ *ssa.Function, a []Value) (Value, bool) { return Str{S: "/cwd/w"}, true })
+	h("vBound", func(e *Exec, _ *frame, _ *ssa.Function, a []Value) (Value, bool) {
+		if !e.Branch(a[0].(*T)) {
+			panic(pathEnd{Kind: "bound", Msg: e.cstr(a[1])})
+		}
+		return nil, true
+	})
 	h("vIsConcrete", func(e *Exec, _ *frame, _ *ssa.Function, a []Value) (Value, bool) {
 		t, ok := a[0].(*T)
 		return sym.BoolC(ok && t.IsConst()), true
